@@ -34,6 +34,11 @@ TEXTS = [
     '\n\n',
     'a\n \n',
     'two lines\n    indented continuation',
+    # other line boundaries str.splitlines knows
+    'carriage\rreturn then words',
+    'crlf\r\nsecond line',
+    'form\x0cfeed and\x0bvertical tab',
+    'next\x85line and\u2028separator end',
 ]
 
 BASE_TREES = [
